@@ -90,6 +90,7 @@ theorem marker_before_ready (as : List Action) (a : Action) (hfresh : listFresh 
   | dr g k n p lo po st =>
     exact (old (by rw [← (SameUsages.deleteRes pre.store g k n p lo po st).usages]; exact hu')).elim
   | gcU n => exact (from_ (gcUsage_from _ n u' hu')).elim
+  | xa n c => exact (from_ (reapplyUsage_from _ n c u' hu')).elim
   | gcR g k n => exact (old (by rw [← (SameUsages.gcRes pre.store g k n).usages]; exact hu')).elim
   | start n =>
     refine (old ?_).elim
@@ -310,6 +311,7 @@ theorem removed_only_with_last (maxc : Nat) (as : List Action) (a : Action) (hfr
   | du n => exact (old (by rw [← deleteUsage_res pre.store n]; exact hr')).elim
   | dr g k n p lo po st => exact (from_ (deleteRes_res_from _ g k n p lo po st r' hr')).elim
   | gcU n => exact (old (by rw [← gcUsage_res pre.store n]; exact hr')).elim
+  | xa n c => exact (old (by rw [← reapplyUsage_res pre.store n c]; exact hr')).elim
   | gcR g k n => exact (from_ (gcRes_res_from _ g k n r' hr')).elim
   | start n =>
     refine (old ?_).elim
@@ -423,6 +425,29 @@ theorem gc_deletes_orphaned_usage (s : Store) (hs : StoreInv s) (nm : String) (x
       · exact absurd (hyn.trans hx.2.symm) hne
       · rfl
   · exact absurd hyn (mem_dropU.mp hy).2
+
+/-- the XR composer re-applying a composed Usage (`RespectOwnerRefs`) keeps every owner reference
+the stored Usage has — in particular the one to the using resource -/
+theorem composer_keeps_owner_refs (s : Store) (hs : StoreInv s) (nm c : String) (x : Usage)
+    (hg : s.getU nm = some x) :
+    ∀ y ∈ (s.reapplyUsage nm c).1.usages, y.name = nm → ∀ o ∈ x.owners, o ∈ y.owners := by
+  have hx := getU_some hg
+  have same : ∀ y ∈ s.usages, y.name = nm → ∀ o ∈ x.owners, o ∈ y.owners := by
+    intro y hy hyn o ho
+    have : y = x := hs.usageUniq y hy x hx.1 (hyn.trans hx.2.symm)
+    rw [this]; exact ho
+  unfold Store.reapplyUsage
+  simp only [hg]
+  split
+  · exact same
+  · split
+    · exact same
+    · split
+      · exact same
+      · next hne =>
+        have hnil : x.owners = [] := by simpa using hne
+        intro y _ _ o ho
+        rw [hnil] at ho; cases ho
 
 /-! ### the marker clauses fail for two overlapping reconciles (defect D16) -/
 
